@@ -364,6 +364,10 @@ def instant_cases():
             for off in (-1, 0, 1):
                 for later in (0, 1, 2):         # the query happens `later` seconds after the store
                     out.append({'backend': backend, 'reps': list(reps), 'off': off, 'later': later})
+    # no expiry given (not_on_or_after left at its default 0, what session_info() yields for an assertion without any NotOnOrAfter): whatever that means,
+    # every accessor has to read it the same way
+    for backend in ('mem', 'file'):
+        out.append({'backend': backend, 'reps': ['int'], 'off': 0, 'later': 0, 'zero': True})
     # expiries an hour away on either side, in processes whose local time zone is not UTC (instants are UTC whatever the zone)
     for tz in ('EST5', 'XYZ-3', 'UTC'):
         for reps in [(r,) for r in REPS]:
@@ -418,7 +422,7 @@ def _run_instant(case):
     try:
         for i, rep in enumerate(case['reps']):
             info = {'ava': {'src%d' % i: ['v%d' % i]}, 'marker': 'm%d' % i, 'name_id': _nid(0)}
-            c.set(_nid(0), SOURCES[i], info, _rep(T, rep))
+            c.set(_nid(0), SOURCES[i], info, 0 if case.get('zero') else _rep(T, rep))
         now = t0 + case['later']
         clock.set_now(now)
         verdicts = {}
@@ -438,6 +442,8 @@ def _run_instant(case):
                 raise Violation('accessors-disagree-at-one-instant', 'expiry %s stored as %s, queried at T%+d: the accessors disagree whether the source is expired: %r (True = treated as fresh)'
                                 % ('T', rep, now - T, v))
             fresh = list(v.values())[0]
+            if case.get('zero'):
+                continue
             if now > T and fresh:
                 raise Violation('expired-treated-as-fresh', 'expiry stored as %s passed %d s ago, source treated as fresh' % (rep, now - T))
             if now < T and not fresh:
